@@ -13,7 +13,7 @@ rules G1–G3 of the LTS are consequences of the kernel model, not assumptions, 
 Scope: `Port` without RED, `element_id` falsy; `qlimit` = `None` or a limit in bytes (`ql : Option Int`; the
 packet-count limit reads `len(store.items)`, which no kernel call of the model exposes); every `rate` (no transmission
 delay when `rate ≤ 0`); one source process with non-negative gaps (zero gaps = bursts and arrivals exactly at
-departure instants are included); exact rational time.  The departure recurrence is stated for `qlimit = None`
+departure instants are included); exact rational time; `fuel + 1` = any positive bound of the `_resume` loop.  The departure recurrence is stated for `qlimit = None`
 (with a limit, which packets are accepted depends on the history); everything else holds for both.
 -/
 
